@@ -1,3 +1,4 @@
+import Grexv.Lemmas.VerbTotal
 import Grexv.Lemmas.EndToEndRV
 import Grexv.Model.Api
 import Grexv.Lemmas.Lex
@@ -115,8 +116,64 @@ theorem anchored_build_total (cfg : Config) (env : Env) (ws : List Str) (h : ¬ 
     subst this
     exact absurd hr (fuel_site_dead cfg env ws)
 
-/-- **C07 (totality, both anchors off)** the only failure left is the `unwrap()` on the verbose candidate re-compiled
-with its line breaks removed -/
+/-- **C07 (totality, any anchors, not verbose)** outside verbose mode the model of `RegExp::from` returns for every configuration —
+both anchors disabled included: the self-check compiles its candidates with `Regex::new(..).ok()` and never unwraps -/
+theorem nonverbose_build_total (cfg : Config) (env : Env) (ws : List Str) (hv : cfg.verb = false) :
+    ∃ st, regExpFrom cfg env ws = .ok st := by
+  cases hr : regExpFrom cfg env ws with
+  | ok st => exact ⟨st, rfl⟩
+  | error e =>
+    exfalso
+    rcases unanchored_build_sites cfg env ws e hr with h | ⟨s, h⟩
+    · subst h; exact fuel_site_dead cfg env ws hr
+    · subst h
+      -- the only `regexInvalid` is produced under `cfg.verb`
+      unfold regExpFrom at hr
+      simp only [hv, Bool.false_eq_true, ite_false] at hr
+      repeat' split at hr
+      all_goals cases hr
+
+/-- with both anchors disabled a failure can only happen in verbose mode -/
+theorem unanchored_failure_is_verbose (cfg : Config) (env : Env) (ws : List Str) (e : Panic)
+    (he : regExpFrom cfg env ws = .error e) : cfg.verb = true ∧ cfg.noStart = true ∧ cfg.noEnd = true := by
+  refine ⟨?_, ?_⟩
+  · cases hv : cfg.verb with
+    | true => rfl
+    | false =>
+      obtain ⟨st, hst⟩ := nonverbose_build_total cfg env ws hv
+      rw [hst] at he; cases he
+  · apply Classical.byContradiction
+    intro h
+    obtain ⟨st, hst⟩ := anchored_build_total cfg env ws h
+    rw [hst] at he; cases he
+
+/-- **C07 (totality)** `RegExp::from` returns for every configuration, segmentation and list of test cases unless verbose mode is on *and*
+both anchors are disabled -/
+theorem build_total (cfg : Config) (env : Env) (ws : List Str) (h : ¬ (cfg.verb = true ∧ cfg.noStart = true ∧ cfg.noEnd = true)) :
+    ∃ st, regExpFrom cfg env ws = .ok st := by
+  cases hv : cfg.verb with
+  | false => exact nonverbose_build_total cfg env ws hv
+  | true => exact anchored_build_total cfg env ws (fun hh => h ⟨hv, hh.1, hh.2⟩)
+
+/-- **C07 (totality in the remaining case, partial)** verbose mode with both anchors disabled — the one place where the code still has an
+`unwrap()` on a compilation: it cannot fail when surrogate pairs are off and the text of the first candidate contains no raw vertical
+tab or form feed (`hvt`; `Display for Expression` leaves U+000B and U+000C unescaped, only `Display for RegExp` escapes them, and the
+print → parse theorems are about the escaped text).  The text compiled there is the verbose text of the expression with its line breaks
+removed (`drop_fmtExpr`: that is the text printed without verbose mode, for every expression) and the model of `Regex::new` accepts it
+(`parse_exprR`: the bare text of a well-formed expression — no anchors, no group around a top-level alternation).  What is missing for
+the full statement: the two excluded characters and `-e` with surrogate pairs; those inputs are compared per input. -/
+theorem verbose_unanchored_build_total_partial (cfg : Config) (hsur : cfg.sur = false)
+    (hmr : cfg.rep = true → 1 ≤ cfg.minRep) (env : Env) (ws : List Str)
+    (hseg : ∀ w ∈ storedCases cfg env ws, SegOK env w)
+    (hlen : ∀ w ∈ storedCases cfg env ws, (clusterOfPieces (env.segOf w)).length ≤ 1000)
+    (hvt : ∀ m, Dfa.minimize (Dfa.trie (graphemeClusters cfg env (sortCases (storedCases cfg env ws)))) Dfa.pickMin = some m →
+      ∀ c ∈ fmtExpr (cfgPlain cfg.cap cfg.esc) (Expr.ofDfa cfg m), c ≠ 11 ∧ c ≠ 12) :
+    ∃ st, regExpFrom cfg env ws = .ok st :=
+  verbose_unanchored_total cfg hsur hmr env ws hseg
+    (fun w hw => by have := hlen w hw; rwa [clusterOfPieces_eq, List.length_map] at this) hvt
+
+/-- **C07 (totality, both anchors off)** whatever makes the model of `RegExp::from` fail is the `unwrap()` on the candidate re-compiled
+with its line breaks removed — and that happens in verbose mode only (`unanchored_failure_is_verbose`) -/
 theorem unanchored_build_only_site (cfg : Config) (env : Env) (ws : List Str) (e : Panic)
     (he : regExpFrom cfg env ws = .error e) : ∃ s, e = .regexInvalid s := by
   rcases unanchored_build_sites cfg env ws e he with h | h
